@@ -704,3 +704,14 @@ def run(ctx):
     # the next (a diffusion memoised per state tensor is stale at another time; rule of C13)
     from . import c13
     ctx.guard(c13.r13_1)
+
+
+_run_before_c17_r17_1 = run
+
+
+def run(ctx):
+    _run_before_c17_r17_1(ctx)
+    # the operators inside the steps, evaluated through the real ForwardSDE wrapper under a special declaration and under its general
+    # embedding, agree (a Levy-area Jacobian term that silently vanishes for one of them shows here; rule of C17)
+    from . import c17
+    ctx.guard(c17.r17_1)
